@@ -110,7 +110,26 @@ fn real_cause(e: &SummaryError) -> Option<Cause> {
     })
 }
 
+/// "FILE_SIZE and SIZE_PKG are integers": a spelling with an explicit '+', leading zeros or
+/// "-0" is an integer to some parsers and not to others; the statement does not say.
+fn ambiguous_integer(text: &str) -> bool {
+    ms::lines(text).iter().any(|l| {
+        ["FILE_SIZE=", "SIZE_PKG="].iter().any(|k| match l.strip_prefix(k) {
+            Some(v) => ms::parse_int(v).map(|n| n.to_string() != v).unwrap_or(false),
+            None => false,
+        })
+    })
+}
+
 fn check_text(t: &mut Tally, text: &str) {
+    if ambiguous_integer(text) {
+        // still must not panic
+        if let Err(m) = guard(|| Summary::from_str(text).is_ok()) {
+            t.violation(Violation::new("text", json!({"text": text}), json!("returns"), json!(format!("panic: {}", m)), "parser panicked"));
+        }
+        t.outcome("skipped/integer-spelling-the-statement-leaves-open");
+        return;
+    }
     t.evals += 1;
     t.validated += 1;
     let want = ms::parse(text);
